@@ -43,20 +43,53 @@ def oom_returners(prog):
     return base
 
 
-def _exc_test(fn, atom, pol, vtxt, exc_tag):
+def _exc_test(fn, atom, pol, vtxt, exc_tag, prog=None, depth=0):
     """does `atom == pol` exclude that v is the exception object?"""
     atom = fn.strip(atom)
     nd = fn.nodes[atom]
+    if depth > 3:
+        return False
+    # a flag local: int ok = !sexp_exceptionp(v); ... if (ok)
+    if nd["k"] == "ref" and "d" in nd and nd["d"] not in fn.params and fn.txt(atom) != vtxt:
+        defs = local_defs(fn, nd["d"])
+        if len(defs) == 1 and defs[0][1] is not None:
+            return _exc_test(fn, defs[0][1], pol, vtxt, exc_tag, prog, depth + 1)
+        return False
+    # c ? 1 : 0  /  c ? 0 : 1
+    if nd["k"] == "cond" and len(nd.get("c", ())) == 3:
+        a, b = fn.const_val(nd["c"][1]), fn.const_val(nd["c"][2])
+        if a is not None and b is not None and bool(a) != bool(b):
+            return _exc_test(fn, nd["c"][0], pol if a else not pol, vtxt, exc_tag, prog, depth + 1)
+        return False
+    # a one-return predicate helper that is handed v
+    if nd["k"] == "call" and prog is not None:
+        g = prog.func(nd.get("o") or "")
+        if g is not None and g.blocks:
+            rets = [x for x in g.nodes if x["k"] == "ret" and x.get("c")]
+            pv = None
+            for ai, a in enumerate(nd["c"][1:]):
+                if fn.txt(fn.strip(a)) == vtxt and ai < len(g.params):
+                    pv = g.vars[g.params[ai]]["n"]
+            if len(rets) == 1 and pv is not None:
+                return _exc_test(g, rets[0]["c"][0], pol, pv, exc_tag, prog, depth + 1)
+        return False
+    if nd["k"] == "bin" and nd["o"] in ("==", "!=") and any(fn.const_val(c) == 0 for c in nd["c"]):
+        sub = nd["c"][1] if fn.const_val(nd["c"][0]) == 0 else nd["c"][0]
+        sk = fn.nodes[fn.strip(sub)]
+        if sk["k"] in ("call", "cond", "un") or (sk["k"] == "bin" and sk["o"] in ("&&", "||", "==", "!=")) or \
+                (sk["k"] == "ref" and fn.txt(fn.strip(sub)) != vtxt):
+            if not _is_pointer_test(fn, atom, vtxt):
+                return _exc_test(fn, sub, pol if nd["o"] == "!=" else not pol, vtxt, exc_tag, prog, depth + 1)
     if nd["k"] == "un" and nd["o"] == "!":
-        return _exc_test(fn, nd["c"][0], not pol, vtxt, exc_tag)
+        return _exc_test(fn, nd["c"][0], not pol, vtxt, exc_tag, prog, depth + 1)
     if nd["k"] == "bin" and nd["o"] in ("&&", "||"):
-        parts = [_exc_test(fn, c, pol, vtxt, exc_tag) for c in nd["c"]]
+        parts = [_exc_test(fn, c, pol, vtxt, exc_tag, prog, depth + 1) for c in nd["c"]]
         if (nd["o"] == "&&") == pol:
             return any(parts)
         # !(pointerp(v) && v->tag == EXC): the exception object is a pointer, so the second operand decides
         if nd["o"] == "&&" and not pol:
             l, r = nd["c"]
-            if _is_pointer_test(fn, l, vtxt) and _exc_test(fn, r, False, vtxt, exc_tag):
+            if _is_pointer_test(fn, l, vtxt) and _exc_test(fn, r, False, vtxt, exc_tag, prog, depth + 1):
                 return True
         return all(parts)
     if nd["k"] == "bin" and nd["o"] in ("==", "!="):
@@ -149,7 +182,7 @@ def run(prog, res, floor=1):
                 sites += 1
                 stat.sites += 1
                 stat.obligations += 1
-                bad = _untested_store(fn, src, vid, vtxt, exc_tag)
+                bad = _untested_store(fn, src, vid, vtxt, exc_tag, prog)
                 if bad is None:
                     stat.discharged += 1
                     stat.sample({"site": fn.where(at), "function": fn.name, "allocator": c.get("o"), "result": vtxt})
@@ -165,7 +198,7 @@ def run(prog, res, floor=1):
     return stat
 
 
-def _untested_store(fn, src, vid, vtxt, exc_tag):
+def _untested_store(fn, src, vid, vtxt, exc_tag, prog=None):
     """first store through the variable reachable from src without crossing an excluding test (or a redefinition)"""
     aliases = set()
     for a in range(len(fn.vars)):
@@ -201,7 +234,7 @@ def _untested_store(fn, src, vid, vtxt, exc_tag):
             if s is None or s < 0:
                 continue
             if b.cond is not None and len(b.succs) == 2:
-                if _exc_test(fn, _decided_by(fn, b), k == 0, vtxt, exc_tag):
+                if _exc_test(fn, _decided_by(fn, b), k == 0, vtxt, exc_tag, prog):
                     continue
             st.append((s, 0))
     return None
